@@ -175,20 +175,22 @@ def fdiv(a, b):
         return a
     if _conc(b) and b == 0:
         return DIVZERO(a)
-    if is_sym(b) and z3.is_const(b) and b.decl().kind() == z3.Z3_OP_UNINTERPRETED:
-        # division by an atomic symbol: multiply by a named reciprocal (keeps the
-        # obligations polynomial); the axiom b*inv(b)=1 is supplied by the checks
-        return fmul(a, reciprocal(b))
-    return R(a) / R(b)
+    # division by a symbolic term: multiply by recip(b) (keeps the obligations polynomial)
+    return fmul(a, reciprocal(b))
 
 
 INV = {}
+_recip = z3.Function("recip", z3.RealSort(), z3.RealSort())
 
 
 def reciprocal(b):
-    key = str(b)
+    """1/b as an uninterpreted application recip(b): keeps obligations free of
+    non-linear division; recip(b1)=recip(b2) follows from b1=b2 by congruence and
+    the axiom b != 0 => b*recip(b) = 1 is supplied by inv_axioms()"""
+    b = R(b)
+    key = b.get_id()
     if key not in INV:
-        INV[key] = (b, z3.Real(f"inv({key})"))
+        INV[key] = (b, _recip(b))
     return INV[key][1]
 
 
@@ -1394,6 +1396,9 @@ class Machine:
             raise Inconclusive(f"load through non-pointer {p!r}")
         if p.obj.startswith("global:"):
             name = p.obj[7:]
+            cg = getattr(self, "const_globals", None)
+            if cg and name in cg and p.off == 0:
+                return cg[name]
             v = st.load(p.obj, p.off)
             if v is not None:
                 return v
